@@ -22,7 +22,7 @@ ASSUMPTIONS = ["schedule-owning in-process pool is faithful to ordered-pool sema
 
 @st.composite
 def cases(draw, tier="quick"):
-    spec = draw(plotgen.plot_specs(max_cells=3000 if tier == "quick" else 10000, max_fields=6,
+    spec = draw(plotgen.plot_specs(thin=True, max_cells=3000 if tier == "quick" else 10000, max_fields=6,
                                    payload_kinds=("special", "coded", "random"),
                                    layouts=("scatter", "nonmono", "single")))
     plot = plotgen.Plot(spec)
@@ -34,7 +34,7 @@ def cases(draw, tier="quick"):
         nb = len(plot.levels[lv]["boxes"])
         code = st.lists(st.integers(0, 7), max_size=8)
         qs.append(dict(f=draw(field_selectors(plot.nf)), lv=lv, b=draw(box_selectors(nb)),
-                       sched=dict(exec=[draw(code)], lazy=draw(st.booleans()))))
+                       sched=dict(exec=[draw(code)], comp=[draw(code)], lazy=draw(st.booleans()))))
     return dict(spec=spec, limit=limit, queries=qs)
 
 
